@@ -204,6 +204,43 @@ def walker_of(U):
     return cands[0] if len(cands) == 1 else None
 
 
+_KW_CACHE = {}
+
+
+def kind_walkers(fx, W):
+    """{function name: (JSON kind, argument position)}: the functions the full walker W hands its parameter to in the arm for one JSON kind
+    (`Value::Object(obj) => self.unpack_object(obj)`), returning their result as its own. Calling such a function on the payload of a
+    `Value::<kind>` pattern is the walker's work for that value."""
+    key = (id(fx), W.name)
+    if key in _KW_CACHE:
+        return _KW_CACHE[key]
+    out = {}
+    wv = vals(W)
+    ps = [i for i in range(1, W.arg_count + 1) if (W.local_ty(i) or "") == "&serde_json::Value"]
+    rets = []
+    for e in cfg.exit_sites(W):
+        if "rv" in e:
+            rets.append(peel(wv._rv(e["rv"], e["bb"], e["idx"])))
+        else:
+            rets.append(peel(wv.call_node(e["bb"])))
+    for b, t in W.calls():
+        r = t.get("resolved")
+        if not t.get("resolved_local") or r == W.name or r not in fx.fns or fx.fns[r].kind == "closure":
+            continue
+        n = wv.call_node(b)
+        if not any(x is n for rv in rets for x in walk(rv)):
+            continue
+        for pos, k in enumerate(n.kids):
+            kp = peel(k)
+            if kp.kind == "field" and kp.kids and peel(kp.kids[0]).kind == "variant":
+                vn = peel(kp.kids[0])
+                base = peel(vn.kids[0]) if vn.kids else None
+                if base is not None and base.kind == "param" and base.d["idx"] in ps and vn.d.get("variant") in ("Object", "Array"):
+                    out[r] = (vn.d.get("variant"), pos)
+    _KW_CACHE[key] = out
+    return out
+
+
 def must_walk(fx, W, v, depth=0, _seen=None):
     """every alternative of v is (the Ok payload of) a call to the full walker W, possibly through crate-local helpers all of whose
     Ok exits are themselves such calls"""
@@ -216,6 +253,11 @@ def must_walk(fx, W, v, depth=0, _seen=None):
         r = x.d["term"].get("resolved")
         if r == W.name:
             return True
+        kw = kind_walkers(fx, W).get(r)
+        if kw is not None and kw[1] < len(x.kids):
+            a = peel(x.kids[kw[1]])
+            if a.kind == "field" and a.kids and peel(a.kids[0]).kind == "variant" and peel(a.kids[0]).d.get("variant") == kw[0]:
+                return True  # the kind-specific walker applied to the payload of a `Value::<kind>` pattern
         if x.d["term"].get("resolved_local") and r in fx.fns and r not in _seen and depth < 3:
             h = fx.fns[r]
             if h.kind == "closure":
